@@ -36,24 +36,37 @@ Cap == [
   \* shapes: a lone number where the grammar wants <x>:<y> or an address.  Whether such a text means anything is the parser's
   \* business (Shape rows demand neither acceptance nor refusal) -- but it is answered, never an unhandled exception, and what
   \* is accepted can be encoded
-  rdplain |-> "b4", vrdplain |-> "b4", frdplain |-> "b4", aggrplain |-> "b4", rtplain |-> "b4", largetwo |-> "b4", nhnum |-> "b4" ]
+  rdplain |-> "b4", vrdplain |-> "b4", frdplain |-> "b4", aggrplain |-> "b4", rtplain |-> "b4", largetwo |-> "b4", nhnum |-> "b4",
+  \* lengths: bytes of a generic attribute's value, number of communities.  The six value classes are here the rungs of the
+  \* length ladder (RFC 4271 4.3: one length byte up to 255, Extended Length up to 65535, nothing beyond):
+  \*   low, max (last one-byte length), over (first Extended Length)   -> accepted and carried
+  \*   neg  (4090 bytes / 1100 communities: fits an extended-message session only) and
+  \*   junk (65535 bytes / 16383 communities: a legal attribute no message has room for) -> whether to accept them at parse
+  \*        time, when the session is not known, is ExaBGP's choice (Free); what is accepted must still never raise
+  \*   huge (65536 bytes / 16384 communities: no attribute can hold it)  -> refused
+  attrlen |-> "alen", commcount |-> "ccount" ]
+Lengths == {"attrlen", "commcount"}
 Shape == {"rdplain", "vrdplain", "frdplain", "aggrplain", "rtplain", "largetwo", "nhnum"}
-Free(r) == r.field \in Shape
+Free(r) == r.field \in Shape \/ (r.field \in Lengths /\ r.val \in {"neg", "junk"})
 Fields == DOMAIN Cap
 \* the in-range value used as "low" for each field (small, so that TLC can do arithmetic on it)
 Low == [f \in Fields |->
         CASE f = "attrcode" -> 200 [] f = "attrflag" -> 192 [] f \in {"mask4", "fmask"} -> 24 [] f = "mask6" -> 32 [] f \in {"fdscp", "fmark"} -> 10
-          [] f \in {"fproto", "fitype", "ficode", "ftclass"} -> 6 [] OTHER -> 77]
+          [] f \in {"fproto", "fitype", "ficode", "ftclass"} -> 6 [] f = "commcount" -> 10 [] OTHER -> 77]
 MaxInt(f) == CASE Cap[f] = "b1" -> 255 [] Cap[f] = "b2" -> 65535 [] Cap[f] = "bits20" -> 1048575 [] Cap[f] = "bits6" -> 63
                [] Cap[f] = "len32" -> 32 [] Cap[f] = "len128" -> 128 [] OTHER -> 0
 Vals == {"low", "max", "over", "huge", "neg", "junk"}       \* huge = 2^64 + 5, neg = -1, junk = "x7"
 Srcs == {"api", "file"}
 Sessions == {"e4", "e2", "i4"}                              \* eBGP 4-byte AS + ADD-PATH, eBGP with a 2-byte peer, iBGP
 \* attrflag: 0xff sets the extended-length bit whose encoding is a separate question: only low and beyond-capacity values
-RowOK(r) == (r.field = "attrflag" => r.val # "max")
+\* the rungs which take more than 64 KB of text are offered in a file only
+\* (the two highest rungs of commcount are left out: the parser needs two minutes for 16384 communities -- the same limit is
+\* reached by attrlen in a tenth of a second)
+RowOK(r) == /\ (r.field = "attrflag" => r.val # "max")
+            /\ (r.field \in Lengths /\ r.val \in {"junk", "huge"} => r.src = "file" /\ r.field # "commcount")
 Rows == {r \in [field : Fields, val : Vals, src : Srcs] : RowOK(r)}
 
-Accept(r) == r.val \in {"low", "max"}
+Accept(r) == r.val \in {"low", "max"} \/ (r.field \in Lengths /\ r.val = "over")
 
 \* the value on k bytes (k = 1, 2, 3 as integers; 4 bytes as a string of bytes)
 V1(f, v) == <<IF v = "max" THEN MaxInt(f) ELSE Low[f]>>
@@ -111,6 +124,9 @@ Frag(r, s) ==
     [] f = "voff"     -> <<0, 17>> \o RD0 \o U16(5) \o V2(f, v) \o U16(8) \o Lbl(100, 1)
     [] f = "vsize"    -> <<0, 17>> \o RD0 \o U16(5) \o U16(1) \o V2(f, v) \o Lbl(100, 1)
     [] f = "vbase"    -> <<0, 17>> \o RD0 \o U16(5) \o U16(1) \o U16(1) \o Lbl(L20(f, v), 1)      \* a block of one label
+    [] f = "attrlen"  -> IF v = "over" THEN <<208, 200, 1, 0, 171, 171>> ELSE <<192, 200, IF v = "max" THEN 255 ELSE 77, 171, 171>>
+    [] f = "commcount" -> IF v = "over" THEN <<208, 8, 1, 0, 0, 1, 0, 0, 0, 1, 0, 1>>                    \* 64 communities 1:0 1:1 ...: 256 bytes
+                          ELSE <<192, 8, IF v = "max" THEN 252 ELSE 40, 0, 1, 0, 0, 0, 1, 0, 1>>
     [] f = "nhoct"    -> <<64, 3, 4, 1, 2, 3>> \o V1(f, v)
     [] f = "pfxoct"   -> <<24, 10, 0>> \o V1(f, v)
     [] f = "origoct"  -> IF s = "i4" THEN <<128, 9, 4, 10, 0, 0>> \o V1(f, v) ELSE <<>>
